@@ -47,7 +47,9 @@ Definition finish_rollback (sc : sconn) (tb : table) (c : conn) (o : outcome_t) 
 Definition finish_ok (sc : sconn) (tb : table) (c : conn) (corder : list name) : prog row (sconn * outcome_t) :=
   (* xSync, then xCommit *)
   match tb_ro tb with
-  | true => Ret ({| sc_conn := conn_end c; sc_tb := Some tb; sc_explicit := false; sc_joined := false |}, OK)
+  (* read-only: nothing to publish; the table's transaction ends (fix 0a81ca8: before it the
+     snapshot stayed, and every later writing statement failed in xBegin) *)
+  | true => Ret ({| sc_conn := conn_end c; sc_tb := Some (tbl_rollback tb); sc_explicit := false; sc_joined := false |}, OK)
   | false =>
       if negb (commit_needed (tb_h tb))
       then Ret ({| sc_conn := conn_end c;
